@@ -136,3 +136,33 @@ pub fn porcelain(v: &Value) -> Value {
         Err(e) => json!({"ok": false, "error": e.to_string()}),
     }
 }
+
+/// K5: {repo, lines: [n..], authors: [name..]}: prints the real JSON blame output, then one JSON line of its own
+pub fn json_lines(v: &Value) -> Value {
+    use git_ai::authorship::authorship_log::PromptRecord;
+    use git_ai::authorship::working_log::AgentId;
+    let repo = git_ai::git::find_repository_in_path(v["repo"].as_str().unwrap()).expect("repo");
+    let mut la: HashMap<u32, String> = HashMap::new();
+    for (l, a) in v["lines"].as_array().unwrap().iter().zip(v["authors"].as_array().unwrap().iter()) {
+        la.insert(l.as_u64().unwrap() as u32, a.as_str().unwrap().to_string());
+    }
+    let mut prompts: HashMap<String, PromptRecord> = HashMap::new();
+    for s in ["s1", "s2"] {
+        prompts.insert(
+            s.to_string(),
+            PromptRecord {
+                agent_id: AgentId { tool: "t".into(), id: format!("id-{s}"), model: "m".into() },
+                human_author: None,
+                messages: vec![],
+                total_additions: 0,
+                total_deletions: 0,
+                accepted_lines: 0,
+                overriden_lines: 0,
+                messages_url: None,
+            },
+        );
+    }
+    let r = git_ai::commands::blame::verif_hooks::output_json_format(&repo, &la, &prompts, "f.rs");
+    println!();
+    json!({"ok": r.is_ok()})
+}
